@@ -33,7 +33,8 @@ def handleOps (op : String) (args impl : List String) : Verdict :=
       match r with
       | none => .bad "ops.cli: kind"
       | some ys =>
-        let m := " ".intercalate (toString ys.length :: ys.map fun it =>
+        -- an operation that leaves no cue makes the tool fail with the nothing-to-write error (exit status)
+        let m := if ys.isEmpty then "EXIT" else " ".intercalate (toString ys.length :: ys.map fun it =>
           s!"{it.startAt},{it.endAt},{encStr ("\n".intercalate (it.lines.map lineStr))}")
         compare m (joinToks impl) fun _ => false
     | _, _ => .bad "ops.cli: parse"
